@@ -234,6 +234,8 @@ def generate(rng, tier):
         batch.append((w, w, 0, 'word'))
         if len(batch) >= 20:
             yield from flush('word')
+    for w in (b'abc$', b'$', b'a$$', b'US$', b'$x', b'a$b', b'^re$', b'x/', b'/', b'a/b/', b'a-b.c_d', b'1e-5', b'~/x', b'%s', b'a;b', b'[x]', b'<y>', b'a|b', b'!', b'\\x'):
+        batch.append((w, w, 0, 'word'))
     yield from flush('word')
     # ${...} as a whole unquoted token
     for body in [x for k, x in D_ALPHA if k == 'env']:
